@@ -327,14 +327,21 @@ impl CelValue {
         if let CelValue::Int(l) = lhs {
             match rhs {
                 CelValue::Int(_) => (lhs, rhs),
-                CelValue::UInt(u) => (lhs, (u as i64).into()),
+                // a uint above i64::MAX has no int representation: leave the pair mixed
+                CelValue::UInt(u) => match i64::try_from(u) {
+                    Ok(v) => (lhs, v.into()),
+                    Err(_) => (lhs, rhs),
+                },
                 CelValue::Float(_) => ((l as f64).into(), rhs),
                 CelValue::Bool(b) => (lhs, (b as i64).into()),
                 _ => (lhs, rhs),
             }
         } else if let CelValue::UInt(l) = lhs {
             match rhs {
-                CelValue::Int(_) => ((l as i64).into(), rhs),
+                CelValue::Int(_) => match i64::try_from(l) {
+                    Ok(v) => (v.into(), rhs),
+                    Err(_) => (lhs, rhs),
+                },
                 CelValue::UInt(_) => (lhs, rhs),
                 CelValue::Float(_) => ((l as f64).into(), rhs),
                 CelValue::Bool(b) => (lhs, (b as u64).into()),
@@ -380,6 +387,9 @@ impl CelValue {
         match (lhs, rhs) {
             (CelValue::Int(l), CelValue::Int(r)) => Ok(l.partial_cmp(&r)),
             (CelValue::UInt(l), CelValue::UInt(r)) => Ok(l.partial_cmp(&r)),
+            // type_prop only leaves an int/uint pair mixed when the uint exceeds i64::MAX
+            (CelValue::Int(_), CelValue::UInt(_)) => Ok(Some(Ordering::Less)),
+            (CelValue::UInt(_), CelValue::Int(_)) => Ok(Some(Ordering::Greater)),
             (CelValue::Float(l), CelValue::Float(r)) => Ok(l.partial_cmp(&r)),
             (CelValue::Bool(l), CelValue::Bool(r)) => Ok(l.partial_cmp(&r)),
             (CelValue::String(l), CelValue::String(r)) => Ok(l.partial_cmp(&r)),
